@@ -289,12 +289,14 @@ def _slice_choice(r, n):
     return ['slice', pick(), pick(), step]
 
 
-def gen_op(r, root, *, syntax_preserving=False, malformed=0.0, kinds=None):
+def gen_op(r, root, *, syntax_preserving=False, malformed=0.0, kinds=None, focus=None):
     """Pick a random applicable op on the current state.  Returns an op dict (with op['parent'] = API path of
-    the model whose slot is edited, for the frame oracle) or None."""
+    the model whose slot is edited, for the frame oracle) or None.  `focus` (an API path prefix) biases the choice
+    towards one model and its descendants, so that several ops of a history hit the same instance."""
     nodes = [(p, m) for p, m in intro.walk_api(root)]
+    focused = [(p, m) for p, m in nodes if focus is not None and list(p[:len(focus)]) == list(focus) and len(p) <= len(focus) + 1]
     for _ in range(40):
-        path, m = r.choice(nodes)
+        path, m = r.choice(focused) if focused and r.random() < 0.75 else r.choice(nodes)
         path = list(path)
         if isinstance(m, base.RawTokenModel):
             op = _gen_token_op(r, path, m, syntax_preserving, malformed)
@@ -351,6 +353,8 @@ def _gen_model_op(r, root, path, m, sp, malformed):
         choices.append(('numop', None, None))
     if isinstance(m, models.CostSpec):
         choices.append(('cost', None, None))
+    if isinstance(m, models.Transaction):
+        choices.append(('txn-raw', None, None))
     if not choices:
         return None
     c, name, f = r.choice(choices)
@@ -391,7 +395,7 @@ def _gen_model_op(r, root, path, m, sp, malformed):
         return {'k': 'setattr', 'kind': 'req-set', 'path': path, 'attr': name, 'val': val, 'parent': path, 'field': f}
     if c == 'rep':
         kind, tys = fields[f]
-        if api['rep'][name][1] and r.random() < 0.12:
+        if api['rep'][name][1] and r.random() < 0.12 and not sp:
             meth = r.choice(['claim_interleaving_comments', 'unclaim_interleaving_comments', 'unclaim_interleaving_comments'])
             return {'k': 'call', 'kind': 'claim-inter' if meth.startswith('claim') else 'unclaim-inter', 'path': path, 'attr': name,
                     'm': meth, 'args': [], 'parent': []}
@@ -406,10 +410,18 @@ def _gen_model_op(r, root, path, m, sp, malformed):
             return None
         return {'k': 'setattr', 'kind': 'spacing', 'path': path, 'attr': side, 'val': {'t': 'lit', 'v': r.choice([' ', '  ', '\t', '\n', ' \n  ', '\r\n', ''])}, 'parent': []}
     if c == 'claim':
+        if sp:
+            return None  # un-attributing comments is set aside by C06 (an unowned comment next to an insertion point)
         meth = r.choice(['claim_leading_comment', 'claim_trailing_comment', 'unclaim_leading_comment', 'unclaim_trailing_comment', 'auto_claim_comments'])
         if meth.startswith('claim'):
             return {'k': 'call', 'kind': 'claim', 'path': path, 'm': meth, 'args': [], 'parent': []}
         return {'k': 'call', 'kind': 'unclaim', 'path': path, 'm': meth, 'args': [], 'parent': []}
+    if c == 'txn-raw':
+        attr = r.choice(['raw_payee', 'raw_narration'])
+        val = {'t': 'none'} if r.random() < 0.3 else gen_value_for(r, models.EscapedString)
+        if malformed and r.random() < malformed:
+            val = _attached_ref(r, root, (models.EscapedString,)) or val
+        return {'k': 'setattr', 'kind': 'txn-raw-set', 'path': path, 'attr': attr, 'val': val, 'parent': path}
     if c == 'numop':
         o = r.choice([{'t': 'lit', 'v': r.randrange(-5, 9)}, {'t': 'dec', 'v': r.choice(['1.5', '-2', '0.25'])},
                       {'t': 'parse', 'cls': 'NumberExpr', 'text': num_text(r)}])
@@ -419,6 +431,14 @@ def _gen_model_op(r, root, path, m, sp, malformed):
         if mm == '/=' and o.get('v') in (0, '0'):
             mm = '*='
         return {'k': 'numop', 'kind': 'numop', 'path': path, 'm': mm, 'val': o, 'parent': path}
+    if c == 'cost' and r.random() < 0.35:
+        # raw (node-level) setters of the dependent group, with fresh or (malformed stream) attached nodes
+        attr = r.choice(['raw_number_per', 'raw_number_total', 'raw_currency'])
+        ty = models.Currency if attr == 'raw_currency' else models.NumberExpr
+        val = {'t': 'none'} if r.random() < 0.2 else gen_value_for(r, ty)
+        if malformed and r.random() < malformed:
+            val = _attached_ref(r, root, (ty,)) or val
+        return {'k': 'setattr', 'kind': 'cost-raw-set', 'path': path, 'attr': attr, 'val': val, 'parent': path}
     if c == 'cost':
         attr = r.choice(['number_per', 'number_total', 'currency', 'date', 'label', 'merge'])
         if attr in ('number_per', 'number_total'):
@@ -514,6 +534,8 @@ _VIEW_ELEM = {
 
 def _gen_view_op(r, root, path, m, name, sp, malformed):
     w = getattr(m, name)
+    if not hasattr(w, '__len__'):
+        return None
     n = len(w)
     base_op = {'path': path, 'attr': name, 'parent': path, 'field': name}
     if name in _VIEW_ELEM:
